@@ -343,7 +343,7 @@ impl World {
     fn finish_blocking(&mut self, t: usize, op: Op, res: Res) {
         match op {
             Op::StreamNext(slot) => {
-                let slot = slot as usize;
+                let slot = (slot & !REPOLL) as usize;
                 let r = match res {
                     Res::Val(v) => {
                         self.th[t].futs[slot] = Fut::Stream(FSt::Zero, false);
@@ -558,7 +558,7 @@ impl World {
             }
             Op::Poll(slot, wk) => self.poll_steps(t, slot as usize, wk, mode),
             Op::StreamNext(slot) => {
-                let slot = slot as usize;
+                let slot = (slot & !REPOLL) as usize;
                 match w.th[t].futs[slot] {
                     Fut::Stream(_, true) => {
                         w.push_res(t, Res::End, None);
@@ -634,6 +634,22 @@ impl World {
             Op::StreamIsTerm(_) => {
                 let b = w.ch.s == 0 && w.ch.queue.is_empty();
                 w.push_res(t, Res::Bool(b), None);
+                one(w)
+            }
+            Op::CloneFrom(side) => {
+                let list = match side {
+                    Side::S => &mut w.th[t].hs,
+                    Side::R => &mut w.th[t].hr,
+                };
+                let top = *list.last().expect("CloneFrom without a handle");
+                list.push(top);
+                match side {
+                    Side::S if w.ch.s > 0 => w.ch.s += 1,
+                    Side::R if w.ch.r > 0 => w.ch.r += 1,
+                    _ => {}
+                }
+                // the overwritten handle was the auxiliary channel's only one
+                w.push_res(t, Res::Num(0), None);
                 one(w)
             }
             Op::DropHandle(side) | Op::DropHandleUnwinding(side) => {
